@@ -107,6 +107,9 @@ pub fn run() -> (u64, Vec<String>) {
         Unsafe => "unsafe", Const => "const", Fn => "fn", Mut => "mut", Impl => "impl", For => "for", Trait => "trait", Mod => "mod", Auto => "auto", Ref => "ref");
     fact("toks(Underscore)", of(&syn::token::Underscore(sp)) == id("_"));
     fact("Ident::new", of(&syn::Ident::new("cfg_attr", sp)) == id("cfg_attr"));
+    fact("Ident == Ident (same text)", syn::Ident::new("abc", sp) == syn::Ident::new("abc", proc_macro2::Span::mixed_site()));
+    fact("Ident != Ident (different text)", syn::Ident::new("abc", sp) != syn::Ident::new("abd", sp));
+    fact("raw Ident differs from plain", syn::Ident::new_raw("type", sp) != syn::Ident::new("typ", sp) && syn::Ident::new_raw("type", sp).to_string() == "r#type");
     fact("Ident::clone", of(&syn::Ident::new("x", sp).clone()) == id("x"));
     fact("LitBool::new(false)", of(&syn::LitBool::new(false, sp)) == id("false"));
     fact("LitBool::new(true)", of(&syn::LitBool::new(true, sp)) == id("true"));
